@@ -194,7 +194,40 @@ class TheoryOracle(walkers.DagWalker):
         theory_out = args[0]
         for t in args[1:]:
             theory_out = theory_out.combine(t)
+        if not self._in_difference_logic(formula):
+            theory_out = theory_out.set_difference_logic(False)
         return theory_out
+
+    def _in_difference_logic(self, formula: FNode) -> bool:
+        """False for a difference whose operands are neither symbols
+        nor closed terms (x - y - z), and for an arithmetic relation
+        over differences that mentions more than two symbols or two
+        symbols with the same sign ((x - y) < z, (x - y) < (y - z),
+        x < 3 - y)."""
+        def is_leaf(f):
+            return f.is_symbol() or len(f.get_free_variables()) == 0
+
+        def signs(f, sign):
+            # The signs of the symbols of a leaf or of a difference
+            # of leaves; None if the term has another shape
+            if f.is_symbol():
+                return [sign]
+            if len(f.get_free_variables()) == 0:
+                return []
+            if f.is_minus() and all(is_leaf(a) for a in f.args()):
+                return signs(f.arg(0), sign) + signs(f.arg(1), -sign)
+            return None
+
+        if formula.is_minus():
+            return all(is_leaf(a) for a in formula.args())
+        if (formula.is_le() or formula.is_lt() or formula.is_equals()) and \
+           (formula.arg(0).is_minus() or formula.arg(1).is_minus()):
+            left, right = signs(formula.arg(0), 1), signs(formula.arg(1), -1)
+            if left is None or right is None:
+                return True
+            both = left + right
+            return len(both) < 2 or (len(both) == 2 and both[0] != both[1])
+        return True
 
     @walkers.handles(op.QUANTIFIERS)
     def walk_quantifier(self, formula: FNode, args: List[Theory], **kwargs) -> Theory:
@@ -346,6 +379,8 @@ class TheoryOracle(walkers.DagWalker):
             theory_out = theory_out.set_linear(False)
         else:
             theory_out = theory_out.combine(args[1])
+        # A division is not a difference constraint
+        theory_out = theory_out.set_difference_logic(False)
         return theory_out
 
         # This is  not in DL anymore
